@@ -1,7 +1,7 @@
 """Shared by C18/C19: file alphabet for ld.so.preload, batch execution of the real snoopyctl, reference predicates."""
 import os, itertools, subprocess
 from engine import build
-from engine.common import VERIF, BUILD, sh, pmap, CLEAN_ENV
+from engine.common import VERIF, BUILD, AUX, sh, pmap, CLEAN_ENV
 
 NATIVE = os.path.join(VERIF, 'native')
 NAME = b'libsnoopy.so'
@@ -9,7 +9,7 @@ NAME = b'libsnoopy.so'
 
 def setup(ck, san='asan'):
     cli = build.build_cli('%s-cli' % ck.id.lower(), san=san)
-    d = os.path.join(BUILD, 'aux')
+    d = AUX
     os.makedirs(d, exist_ok=True)
     hcli = os.path.join(d, 'h_cli')
     r = sh(['gcc', '-O1', '-g', os.path.join(NATIVE, 'h_cli.c'), '-o', hcli])
